@@ -29,11 +29,17 @@ Real code (run over harness.fakecourier, virtual clock):
                  points; the composite operations are programs of the product LTS (controller `Ctl` of Model/OwnerEnv.lean: the
                  spin loops are loops whose exits are clock / environment choices), compared step by step like family 'sched'
                  (labels, enabled sets, registry, results, final state); max_parallelism in {1, 2}.
-  family 'scheda' (round 6): orchestrate.as_completed under the scheduler as the OBSERVED SCRIPT of its primitive operations: every
-                 pool-level call made by the body of as_completed (pool.workers, next_idle_worker with the actual worker order,
-                 release_all(unused), acquired_workers, task.is_alive, worker.submit, the final release_all()) is logged and preceded by
-                 a marker yield (harness/lib_owner.py: install_as_completed_probes), the callee runs unchanged; the schedule is replayed
-                 on the product LTS with that script; a finished as_completed must have logged the finaliser last; oracle as for run.
+  family 'scheda' (round 6; round 11: step by step against the Lean PROGRAM): orchestrate.as_completed under the scheduler.  Yield points: a
+                 marker before every pool-level call made by the body of as_completed (pool.workers, next_idle_worker, release_all(unused),
+                 acquired_workers, task.is_alive, worker.submit, the final release_all()) and every task.done() poll (harness/lib_owner.py:
+                 install_as_completed_probes; the callees run unchanged).  The model side executes the program `asCompleted` of the product LTS
+                 (controller Ctl.ac / acPlan of Model/OwnerEnv.lean: task iterator, retry stack, running tasks, preferred / reserved sets, submit
+                 loop, three-way completion handling, release_all(unused), finally); from the real run it receives ONLY the environment's
+                 choices (the worker order handed to next_idle_worker = set iteration order + random.shuffle, the set handed to
+                 release_all = random.sample + set iteration order), which the controller validates against the Python semantics; which call
+                 comes next is decided by the model and compared step by step (labels, enabled sets, registry, how the generator ended, final
+                 state).  Cases: 0-4 tasks (ok / raising), all results / k then close / closed unstarted, ignore_failures, competing pools, late /
+                 failed replies, and (rand_scheda_faults) workers dying / going stale / coming back in the middle of the run.
 Model: lean/MlModel/Model/Registry.lean, Owner.lean, OwnerEnv.lean; theorems: lean/MlModel/Properties/C20.lean.
 `extra`: exhaustive exploration of all interleavings of small configurations of the Owner LTS in the Lean
 driver (a *test* of the model / theorem hypotheses), the racy orders of F13 / F14 executed by hand on the
@@ -66,9 +72,11 @@ TRUSTED = [
     'and the done() polls of courier_worker.wait as BLOCKING yields (the stutter-free equivalent of the two waits); time.time() of '
     'courier_utils.py is fused into the step; max_parallelism in {1, 2}; the base script of pieces is a prophecy discovered by the '
     'driver and re-checked on the pure xstep? in a second pass',
-    'family scheda: the control flow of orchestrate.as_completed (which pool-level call comes next, with which worker order) is OBSERVED, '
-    'not modelled: class-level probes active only for calls whose caller frame is as_completed log the call and yield a marker; '
-    'orchestrate.time.sleep is fused',
+    'family scheda (round 11): the control flow of orchestrate.as_completed IS the Lean program OwnerEnv.acPlan; taken from the real run and '
+    'validated by the model, not predicted: the iteration order of Python sets, random.shuffle, random.sample (the worker lists passed to '
+    'next_idle_worker and release_all); class-level probes active only for calls whose caller frame is as_completed log the call and yield a '
+    'marker, task.done() polled from that frame is a yield point; orchestrate.time.sleep(0.0) is fused; the thread-local code after the last '
+    'step of task.is_alive (set_exception on the future) is fused into that step, in the model alike (afterAliveAC)',
 ]
 ASSUMPTIONS = [
     'times are integral ticks of a virtual clock; thresholds in {100, 180, 400}',
@@ -96,7 +104,8 @@ RULE = ('live: small-exhaustive event sequences (length<=3 quick / <=4 thorough)
         '1-3 workers with max_parallelism 1-2, schedule as in sched, cut after 1200 steps (spin loops); '
         'scheda: thread 0 consumes as_completed over 0-4 tasks (ok / raising; all results, or k then close, or closed unstarted; '
         'ignore_failures on / off), other pools compete, the same pool may be driven by a non-acquiring second thread, environment as in '
-        'schedc with mostly short ticks and a transport thread of 40-120 deliveries; '
+        'schedc with mostly short ticks and a transport thread of 40-120 deliveries; plus 160 (thorough 4000) cases with 1-2 workers and a fault '
+        '(die / heartbeat going stale, optionally revive) placed in the middle of the run by idling the environment thread first; '
         'distinct = distinct canonical case JSON')
 
 THRS = [100, 180, 400]
@@ -403,6 +412,34 @@ def rand_scheda(rng):
   return c
 
 
+def rand_scheda_faults(rng):
+  """round 11: as_completed with faults in the MIDDLE of the run (a worker dies / the clock passes the heartbeat threshold while a
+  task is in flight or between next_idle_worker and submit, a reply fails, the reply arrives behind set_exception): the
+  environment thread idles (tick 0) for a random number of steps first, so that the fault falls inside the loop."""
+  nworkers = rng.choice([1, 1, 2])
+  pw = [list(range(nworkers))]
+  if rng.random() < 0.3:
+    pw.append([rng.randrange(nworkers)])
+  nt = rng.randrange(1, 4)
+  threads = [dict(kind='pool', ops=[dict(op='as_completed', p=0, tasks=[rng.choice(['ok', 'ok', 'raise']) for _ in range(nt)],
+                                         take=rng.choice([None, None, None, 1]), ignore=rng.random() < 0.5)])]
+  if len(pw) > 1:
+    threads.append(dict(kind='pool', ops=[rand_sched_pool_op(rng, 1, pw[1]) for _ in range(rng.randrange(1, 3))]))
+  w = rng.randrange(nworkers)
+  idle = lambda a, b: [dict(op='tick', d=0) for _ in range(rng.randrange(a, b))]
+  fault = rng.choice(['die', 'die', 'stale', 'die-revive', 'stale-revive'])
+  ops = idle(8, 70)
+  ops.append(dict(op='die', w=w) if fault.startswith('die') else dict(op='tick', d=rng.choice([100, 200])))
+  if fault.endswith('revive'):
+    ops += idle(3, 40) + [dict(op='revive', w=w)]
+  threads.append(dict(kind='env', ops=ops))
+  # the transport: answers late (after its own idling), sometimes fails a reply
+  threads.append(dict(kind='env', ops=idle(1, 60) + [dict(op='deliver', k=0, fail=rng.random() < 0.15)
+                                                       for _ in range(rng.randrange(0, 30))]))
+  return dict(fam='scheda', nworkers=nworkers, pw=pw, thr=100, now=1000, mp=[rng.choice([1, 2]) for _ in range(nworkers)],
+              reg0=['alive'] * nworkers, threads=threads, sched=dict(kind='random', seed=rng.randrange(10**9), changes=3, horizon=80))
+
+
 def gen_cases(ctx):
   import os
   fams = os.environ.get('VERIF_C20_FAMILIES')          # development aid: restrict the families (default: all)
@@ -456,6 +493,9 @@ def _gen_cases(ctx):
   # --- scheda (round 6): orchestrate.as_completed under the scheduler, as the observed script of its primitive operations
   for _ in range(160 if quick else 3000):
     yield rand_scheda(rng)
+  # --- scheda with faults in the middle of the run (round 11; after everything else: earlier random streams unchanged)
+  for _ in range(160 if quick else 4000):
+    yield rand_scheda_faults(rng)
 
 
 # ----------------------------------------------------------------------------- real code
@@ -733,6 +773,15 @@ PROGRAM_POINTS = [
     'c.rSub.sleepCap', 'c.cAcq', 'c.cWait', 'r.strAcq', 'r.strRel', 'e.deliver.taskRaise',
     'e.shutdown', 'e.deliver.cancelled', 'e.deliver.shutdown',
     'c.start.submit', 'c.sSub.sleepAlive', 'c.sSub.disconnected', 'c.sSub.sleepCap']
+# round 11: program points of the controller of as_completed (Model/OwnerEnv.lean: `acPlan`; name = where the controller is > what it
+# does next) that every run must execute on the real code (family scheda); reached but too rare to promise: a.isAl.raced>fin.raised
+# (the reply arrives between the done() poll and set_exception), a.rel>workers, a.sub>poll, a.polled.failed>workers, a.next>acquired
+AC_POINTS = [
+    'a.start', 'a.alive1>workers', 'a.alive1>fin.noWorker', 'a.alive2>nextIdle', 'a.alive2>poll', 'a.next>submit0', 'a.next>poll',
+    'a.next>workers', 'a.sub>nextIdle', 'a.sub>submit1', 'a.sub>submit2', 'a.polled.queued>isAlive', 'a.polled.ok>poll',
+    'a.polled.ok>fin.closed', 'a.polled.ok>acquired', 'a.polled.failed>fin.raised', 'a.polled.failed>poll', 'a.isAl.alive>workers',
+    'a.isAl.alive>acquired', 'a.isAl.alive>poll', 'a.isAl.dead>workers', 'a.acq>release', 'a.acq>workers', 'a.rel>fin.ok']
+_VERDICTS = dict(n=0)      # disagreements / oracle failures seen in the main phase (a coverage guard must not mask them)
 _SCHEDULES = set()
 
 
@@ -795,6 +844,13 @@ def model_obs(case, resps):
 
 
 def compare(impl, model):
+  d = _compare(impl, model)
+  if d is not None:
+    _VERDICTS['n'] += 1
+  return d
+
+
+def _compare(impl, model):
   if model.get('skip'):
     return None
   if 'steps' in impl:
@@ -821,6 +877,13 @@ def compare(impl, model):
 # ----------------------------------------------------------------------------- oracle (the property itself)
 
 def oracle(case, obs):
+  w = _oracle(case, obs)
+  if w is not None:
+    _VERDICTS['n'] += 1
+  return w
+
+
+def _oracle(case, obs):
   if case['fam'] in ('sched', 'schedrun', 'schedc', 'scheda'):
     return oracle_sched(case, obs)
   return oracle_live(case, obs) if case['fam'] == 'live' else oracle_own(case, obs)
@@ -837,6 +900,13 @@ def oracle_sched(case, obs):
     return f"the run did not finish: {obs['outcome']} {obs.get('err')} blocked={obs.get('blocked')}"
   if obs['excs']:
     return f"a thread ended with an exception: {obs['excs']}"
+  if obs.get('ac_released_busy'):
+    # (round 11, F-C20-release-empty-set) ownership discipline behind "at most one pool owns a given worker": a pool does not give
+    # away a worker on which one of its own tasks is still running - as_completed's mid-run release is for the UNUSED workers
+    # (orchestrate.py:542).  Not in the letter of the statement; see known_findings (fixed) for what it does and does not violate.
+    b = obs['ac_released_busy'][0]
+    return (f"as_completed of pool {b['p']}: the mid-run release_all({b['arg']}) released workers {b['workers']} on which tasks of this "
+            f"as_completed were still running (an empty collection means 'all workers' to release_all)")
   ths, npools, nw = case['threads'], len(case['pw']), case['nworkers']
   steps, snaps = obs['steps'], obs['snaps']
   drivers = [set() for _ in range(npools)]          # threads that act for a pool
@@ -1274,6 +1344,14 @@ def extra(ctx):
     from harness.core import InfraError
     raise InfraError(f'C20 sched family missed program points {missing_pp}')
   import os
+  fams = os.environ.get('VERIF_C20_FAMILIES')
+  missing_ac = [pp for pp in AC_POINTS if pp not in _COVER.get('sched_program_points', {})]
+  ctx.notes.append(f'scheda: {len(AC_POINTS) - len(missing_ac)}/{len(AC_POINTS)} promised program points of the as_completed controller executed '
+                   f'on the real code; all a.* points seen: {sorted(k for k in _COVER.get("sched_program_points", {}) if k.startswith("a."))}')
+  if (missing_ac and (not fams or 'scheda' in fams.split(',')) and not _VERDICTS['n'] and not ctx.extra_disagreements
+      and not ctx.extra_oracle_failures):
+    from harness.core import InfraError
+    raise InfraError(f'C20 scheda family missed program points of the as_completed controller {missing_ac}')
   missing = [b for b in LIVE_BRANCHES if b not in _COVER.get('live_model_branches', {})]
   if missing and not os.environ.get('VERIF_C20_FAMILIES'):
     from harness.core import InfraError
